@@ -37,6 +37,8 @@ type Ledger struct {
 
 	MinLat, MaxLat time.Duration // latency of calls
 	EvMin, EvMax   time.Duration // latency of event delivery
+	ConfirmMax     time.Duration // a party sees a completed funding ConfirmMax/2..ConfirmMax after it happened
+	ConfirmOnly    string        // if set: only this party's confirmations are delayed
 	FailP          float64       // probability that a Register/Withdraw call fails outright (relaxed configurations)
 	// FailRegisterOnce[name]: the next Register call of that party fails with a
 	// transient error (the transaction did not go through), then the entry is removed.
@@ -397,14 +399,22 @@ func (p *Party) Fund(ctx context.Context, req channel.FundingReq) error {
 	defer t.Stop()
 	// a select with several ready cases draws from the runtime's own random
 	// source, which no seed controls: decide the ready-at-entry case by priority
+	confirmed := func() error {
+		// every party learns of the completed funding from its own chain node,
+		// with its own delay (0 unless ConfirmMax is set)
+		if l.ConfirmMax > 0 && (l.ConfirmOnly == "" || l.ConfirmOnly == p.Name) {
+			l.S.Sleep("ledger:Fund-confirmed:"+p.Name+":"+name, l.ConfirmMax/2, l.ConfirmMax)
+		}
+		return nil
+	}
 	select {
 	case <-fundedCh:
-		return nil
+		return confirmed()
 	default:
 	}
 	select {
 	case <-fundedCh:
-		return nil
+		return confirmed()
 	case <-ctx.Done():
 		return ctx.Err()
 	case <-t.C:
